@@ -88,6 +88,15 @@ Idle ==
   /\ dollar = DOpen /\ index = -1 /\ file = 0
   /\ obs = <<>> /\ outcome = "running"
 
+\* back to the idle state (between the runs of a concatenated trace)
+Unload ==
+  /\ rules' = <<>> /\ files' = <<>> /\ part' = NoPart
+  /\ phase' = "config" /\ level' = "-"
+  /\ fi' = 0 /\ vi' = 0 /\ si' = 0 /\ ei' = -1 /\ ri' = 1
+  /\ tested' = FALSE /\ signal' = "none"
+  /\ dollar' = DOpen /\ index' = -1 /\ file' = 0
+  /\ obs' = <<>> /\ outcome' = "running"
+
 Quiet == signal = "none" /\ phase # "done"
 
 \* ---- NewEvaluator / readRules
